@@ -801,6 +801,385 @@ pub fn check_worker_burst(case: &BurstCase) -> CaseResult {
     Ok(classes)
 }
 
+
+// ---------------------------------------------------------------------------------------------
+// the other public ways in: direct mode + MergeOnDrop, MergeOptions / Flatten / exponential
+// histogram field strategies, a keyless struct behind KeyedAggregator, insert_direct,
+// insert_and_send_to, AggregateSinkRef::merge_ref, Aggregate::new, guards into a MutexSink
+
+pub mod other {
+    use super::*;
+    use metrique_aggregation::traits::AggregateSinkRef;
+    use metrique_aggregation::value::{Flatten, MergeOptions};
+    use metrique::unit::Millisecond;
+
+    #[aggregate]
+    #[metrics]
+    pub struct Inner2 {
+        #[aggregate(strategy = Sum)]
+        pub count: u64,
+    }
+
+    /// keyless, entry mode
+    #[aggregate]
+    #[metrics]
+    pub struct Wide {
+        #[aggregate(strategy = Sum)]
+        pub total: u64,
+        #[aggregate(strategy = MergeOptions<Sum>)]
+        pub opt: Option<u64>,
+        #[aggregate(strategy = MergeOptions<Histogram<Duration, SortAndMerge>>)]
+        #[metrics(unit = Millisecond)]
+        pub lat: Option<Duration>,
+        #[aggregate(strategy = Histogram<u64>)]
+        pub h: u64,
+        #[aggregate(strategy = Flatten)]
+        #[metrics(flatten)]
+        pub inner: Inner2,
+        #[aggregate(strategy = KeepLast)]
+        pub last: u32,
+    }
+
+    /// keyless, by-reference merge available (insert_and_send_to / merge_ref)
+    #[aggregate(ref)]
+    #[metrics]
+    pub struct SubRef {
+        #[aggregate(strategy = Sum)]
+        pub total: u64,
+        #[aggregate(strategy = KeepLast)]
+        pub last: u32,
+        #[aggregate(strategy = Distribution)]
+        pub dist: u64,
+    }
+
+    /// direct mode: merged without closing, guard = MergeOnDrop
+    #[aggregate(direct)]
+    #[metrics]
+    #[derive(Clone)]
+    pub struct Direct {
+        #[aggregate(key)]
+        pub word: String,
+        #[aggregate(strategy = Sum)]
+        pub total: u64,
+        #[aggregate(strategy = Distribution)]
+        pub dist: u64,
+    }
+
+    #[aggregate(direct)]
+    #[metrics]
+    #[derive(Clone)]
+    pub struct DirectNoKey {
+        #[aggregate(strategy = Sum)]
+        pub total: u64,
+        #[aggregate(strategy = Distribution)]
+        pub dist: u64,
+    }
+
+    #[derive(Clone, Debug, Serialize, Deserialize)]
+    pub struct OIn {
+        pub total: u32,
+        pub opt: Option<u16>,
+        pub lat_ms: Option<u16>,
+        pub h: u16,
+        pub count: u16,
+        pub last: u32,
+        pub word: u8,
+        /// how this input enters: see check
+        pub via: u8,
+        /// guard inputs: the value is changed through DerefMut before the drop
+        pub bump: u8,
+    }
+
+    #[derive(Clone, Debug, Serialize, Deserialize)]
+    pub struct OCase {
+        pub inputs: Vec<OIn>,
+        pub preload: Option<u32>,
+    }
+
+    /// name -> (sum of totals, number of observations, observation values)
+    #[derive(Debug, Default, Clone)]
+    pub struct Seen {
+        pub metrics: BTreeMap<String, (f64, u64, Vec<(f64, u64)>)>,
+        pub strings: BTreeMap<String, String>,
+    }
+    pub fn see(e: &impl Entry) -> Seen {
+        let mut s = Seen::default();
+        for r in record(e).recs {
+            if let Rec::Value { name, val } = r {
+                match val {
+                    RecVal::Str(v) => {
+                        s.strings.insert(name, v);
+                    }
+                    RecVal::Metric { obs, .. } => {
+                        let e = s.metrics.entry(name).or_default();
+                        for o in obs {
+                            let (t, n) = match o {
+                                Obs::U(u) => (u as f64, 1u64),
+                                Obs::Fl(f) => (f.0, 1),
+                                Obs::Rep { total, occ } => (total.0, occ),
+                            };
+                            e.0 += t;
+                            e.1 += n;
+                            e.2.push((t / n.max(1) as f64, n));
+                        }
+                    }
+                    _ => {}
+                }
+            }
+        }
+        s
+    }
+    #[derive(Clone, Default)]
+    pub struct SeeSink(pub Arc<Mutex<Vec<Seen>>>);
+    impl<E: Entry> EntrySink<E> for SeeSink {
+        fn append(&self, entry: E) {
+            self.0.lock().unwrap().push(see(&entry));
+        }
+        fn flush_async(&self) -> FlushWait {
+            FlushWait::ready()
+        }
+    }
+    struct E<T>(T);
+    impl<T: metrique_core::InflectableEntry> Entry for E<T> {
+        fn write<'a>(&'a self, w: &mut impl metrique_writer_core::EntryWriter<'a>) {
+            self.0.write(w)
+        }
+    }
+
+    fn sorted(mut v: Vec<u64>) -> Vec<u64> {
+        v.sort();
+        v
+    }
+    fn expand(obs: &[(f64, u64)]) -> Vec<u64> {
+        let mut v = vec![];
+        for (x, n) in obs {
+            for _ in 0..*n {
+                v.push(x.round() as u64);
+            }
+        }
+        v.sort();
+        v
+    }
+
+    pub fn check(case: &OCase) -> CaseResult {
+        let mut classes: Classes = vec![];
+        // ---- A: Wide (keyless, entry mode) through Aggregate::insert, a KeyedAggregator (NoKey) and a
+        // guard into a MutexSink
+        let mut agg: Aggregate<Wide> = Aggregate::default();
+        let keyed_out = SeeSink::default();
+        let mut keyed: KeyedAggregator<Wide, SeeSink> = KeyedAggregator::new(keyed_out.clone());
+        let mutexed: MutexSink<Aggregate<Wide>> = MutexSink::new(Aggregate::default());
+        let mk = |i: &OIn| Wide {
+            total: i.total as u64,
+            opt: i.opt.map(|x| x as u64),
+            lat: i.lat_ms.map(|ms| Duration::from_millis(ms as u64)),
+            h: i.h as u64,
+            inner: Inner2 { count: i.count as u64 },
+            last: i.last,
+        };
+        let (mut total, mut opt_sum, mut count_sum) = (0u64, 0u64, 0u64);
+        let (mut lats, mut hs): (Vec<u64>, Vec<u64>) = (vec![], vec![]);
+        let mut last = None;
+        for i in &case.inputs {
+            no_panic("agg-merge", || {
+                agg.insert(mk(i));
+                keyed.merge(mk(i).close());
+                if i.via % 2 == 0 {
+                    RootSink::merge(&mutexed, mk(i).close());
+                } else {
+                    // guard into the mutex-shared aggregate, changed through DerefMut before the drop
+                    let mut g = mk(i).close_and_merge(mutexed.clone());
+                    g.total += i.bump as u64;
+                    g.total -= i.bump as u64;
+                    drop(g);
+                }
+            })?;
+            total += i.total as u64;
+            opt_sum += i.opt.unwrap_or(0) as u64;
+            count_sum += i.count as u64;
+            if let Some(ms) = i.lat_ms {
+                lats.push(ms as u64);
+            }
+            hs.push(i.h as u64);
+            last = Some(i.last as u64);
+        }
+        no_panic("agg-flush", || keyed.flush())?;
+        let seen_embedded = see(&E(agg.close()));
+        let seen_mutex = see(&E(mutexed.close()));
+        let keyed_seen = keyed_out.0.lock().unwrap().clone();
+        if case.inputs.is_empty() {
+            vensure!(keyed_seen.is_empty(), "agg:phantom-aggregate", "flush of an empty keyless KeyedAggregator emitted {keyed_seen:?}");
+        } else {
+            vensure!(
+                keyed_seen.len() == 1,
+                "agg:aggregate-count",
+                "a keyless struct behind KeyedAggregator: {} aggregates emitted by one flush for {} inputs",
+                keyed_seen.len(),
+                case.inputs.len()
+            );
+            for (what, s) in [("Aggregate::insert", &seen_embedded), ("KeyedAggregator (NoKey)", &keyed_seen[0]), ("MutexSink<Aggregate> (merge / close_and_merge guard)", &seen_mutex)] {
+                let g = |n: &str| s.metrics.get(n).cloned().unwrap_or_default();
+                vensure!(g("total").0 == total as f64, "agg:sum-wrong", "{what}: total {} expected {total}", g("total").0);
+                vensure!(
+                    g("opt").0 == opt_sum as f64,
+                    "agg:sum-wrong",
+                    "{what}: MergeOptions<Sum> over Option<u64>: {} expected {opt_sum} (None adds nothing)",
+                    g("opt").0
+                );
+                vensure!(g("count").0 == count_sum as f64, "agg:sum-wrong", "{what}: Flatten(inner.count) {} expected {count_sum}", g("count").0);
+                vensure!(
+                    expand(&g("lat").2) == sorted(lats.clone()),
+                    "agg:distribution-wrong",
+                    "{what}: MergeOptions<Histogram<Duration>> with unit: {:?} expected {:?}",
+                    g("lat").2,
+                    sorted(lats.clone())
+                );
+                vensure!(
+                    g("h").1 == hs.len() as u64,
+                    "agg:distribution-wrong",
+                    "{what}: exponential Histogram<u64> field holds {} observations for {} inputs",
+                    g("h").1,
+                    hs.len()
+                );
+                vensure!(Some(g("last").0 as u64) == last, "agg:keep-last-wrong", "{what}: last {} expected {last:?}", g("last").0);
+            }
+            classes.push("keyless-behind-keyed-aggregator");
+            if case.inputs.iter().any(|i| i.opt.is_none()) && case.inputs.iter().any(|i| i.opt.is_some()) {
+                classes.push("merge-options-some-and-none");
+            }
+        }
+        // ---- B: SubRef: insert_and_send_to / merge_ref / Aggregate::new
+        let raw = SeeSink::default();
+        let pre = case.preload.map(|p| {
+            let mut a: Aggregate<SubRef> = Aggregate::default();
+            a.insert(SubRef { total: p as u64, last: 1, dist: 3 });
+            a
+        });
+        let mut sub: Aggregate<SubRef> = pre.unwrap_or_default();
+        let (mut t2, mut d2): (u64, Vec<u64>) = (case.preload.unwrap_or(0) as u64, if case.preload.is_some() { vec![3] } else { vec![] });
+        let mut sent = 0usize;
+        for i in &case.inputs {
+            let v = SubRef { total: i.total as u64, last: i.last, dist: i.h as u64 };
+            no_panic("agg-merge", || match i.via % 3 {
+                0 => sub.insert(v),
+                1 => {
+                    sub.insert_and_send_to(v, &raw);
+                }
+                _ => AggregateSinkRef::merge_ref(&mut sub, &v.close()),
+            })?;
+            if i.via % 3 == 1 {
+                sent += 1;
+            }
+            t2 += i.total as u64;
+            d2.push(i.h as u64);
+        }
+        let sseen = see(&E(sub.close()));
+        let g = |n: &str| sseen.metrics.get(n).cloned().unwrap_or_default();
+        if !case.inputs.is_empty() || case.preload.is_some() {
+            vensure!(
+                g("total").0 == t2 as f64 && expand(&g("dist").2) == sorted(d2.clone()),
+                "agg:embedded-wrong",
+                "Aggregate<SubRef> fed through insert / insert_and_send_to / merge_ref (preloaded: {:?}): total {} dist {:?}, expected {t2} {:?}",
+                case.preload,
+                g("total").0,
+                g("dist").2,
+                sorted(d2.clone())
+            );
+        }
+        let raws = raw.0.lock().unwrap().clone();
+        vensure!(raws.len() == sent, "agg:raw-entry-count", "insert_and_send_to called {sent} times, the second sink received {} entries", raws.len());
+        let mut want_raw: Vec<u64> = case.inputs.iter().filter(|i| i.via % 3 == 1).map(|i| i.total as u64).collect();
+        let mut got_raw: Vec<u64> = raws.iter().map(|r| r.metrics.get("total").map_or(u64::MAX, |m| m.0 as u64)).collect();
+        want_raw.sort();
+        got_raw.sort();
+        vensure!(want_raw == got_raw, "agg:raw-entry-content", "raw entries sent on: totals {got_raw:?}, expected {want_raw:?}");
+        if sent > 0 {
+            classes.push("insert-and-send-to");
+        }
+        // ---- C: direct mode: insert_direct, MergeOnDrop guards (mutated before the drop), keyed
+        let dout = SeeSink::default();
+        let dkeyed = Shared(Arc::new(Mutex::new(KeyedAggregator::<Direct, SeeSink>::new(dout.clone()))));
+        let mut dagg: Aggregate<DirectNoKey> = Aggregate::default();
+        let mut per_word: BTreeMap<String, (u64, Vec<u64>)> = BTreeMap::new();
+        let (mut t3, mut d3): (u64, Vec<u64>) = (0, vec![]);
+        for i in &case.inputs {
+            let w = word_of(i.word % 8);
+            let bump = i.bump as u64;
+            no_panic("agg-merge", || {
+                if i.via % 2 == 0 {
+                    dkeyed.merge(Direct { word: w.clone(), total: i.total as u64 + bump, dist: i.h as u64 });
+                } else {
+                    let mut g = Direct { word: w.clone(), total: i.total as u64, dist: i.h as u64 }.merge(dkeyed.clone());
+                    g.total += bump;
+                    drop(g);
+                }
+                dagg.insert_direct(DirectNoKey { total: i.total as u64, dist: i.h as u64 });
+            })?;
+            let e = per_word.entry(w).or_default();
+            e.0 += i.total as u64 + bump;
+            e.1.push(i.h as u64);
+            t3 += i.total as u64;
+            d3.push(i.h as u64);
+        }
+        no_panic("agg-flush", || dkeyed.0.lock().unwrap().flush())?;
+        let douts = dout.0.lock().unwrap().clone();
+        vensure!(
+            douts.len() == per_word.len(),
+            "agg:aggregate-count",
+            "direct mode: {} aggregates for {} distinct keys",
+            douts.len(),
+            per_word.len()
+        );
+        for s in &douts {
+            let w = s.strings.get("word").cloned().unwrap_or_default();
+            let Some((t, d)) = per_word.get(&w) else {
+                vfail!("agg:phantom-aggregate", "direct mode: aggregate for key {w:?} that was never merged");
+            };
+            let gt = s.metrics.get("total").cloned().unwrap_or_default();
+            let gd = s.metrics.get("dist").cloned().unwrap_or_default();
+            vensure!(
+                gt.0 == *t as f64 && expand(&gd.2) == sorted(d.clone()),
+                "agg:sum-wrong",
+                "direct mode (merge / MergeOnDrop guard changed before its drop) key {w:?}: total {} dist {:?}, expected {t} {:?}",
+                gt.0,
+                gd.2,
+                sorted(d.clone())
+            );
+        }
+        let ds = see(&E(dagg.close()));
+        if !case.inputs.is_empty() {
+            let gt = ds.metrics.get("total").cloned().unwrap_or_default();
+            let gd = ds.metrics.get("dist").cloned().unwrap_or_default();
+            vensure!(
+                gt.0 == t3 as f64 && expand(&gd.2) == sorted(d3.clone()),
+                "agg:embedded-wrong",
+                "Aggregate::insert_direct: total {} dist {:?}, expected {t3} {:?}",
+                gt.0,
+                gd.2,
+                sorted(d3.clone())
+            );
+            classes.push("direct-mode");
+        }
+        if case.inputs.len() >= 3 && case.inputs.iter().any(|i| i.via % 2 == 1 && i.bump > 0) {
+            classes.push("nt");
+        }
+        Ok(classes)
+    }
+
+    pub fn arb_case() -> impl Strategy<Value = OCase> {
+        (
+            prop::collection::vec(
+                (any::<u32>(), prop::option::of(any::<u16>()), prop::option::of(0u16..5000), 0u16..2000, any::<u16>(), any::<u32>(), any::<u8>(), any::<u8>(), 0u8..4).prop_map(
+                    |(total, opt, lat_ms, h, count, last, word, via, bump)| OIn { total, opt, lat_ms, h, count, last, word, via, bump },
+                ),
+                0..25,
+            ),
+            prop::option::of(any::<u32>()),
+        )
+            .prop_map(|(inputs, preload)| OCase { inputs, preload })
+    }
+}
+
 // embedded + mutex-shared aggregation
 #[derive(Clone, Debug, Serialize, Deserialize)]
 pub struct EmbeddedCase {
@@ -973,5 +1352,16 @@ pub fn run(ctx: &mut Ctx) {
                 .prop_map(|(id, inputs, threads)| EmbeddedCase { id, inputs, threads })
         },
         check_embedded,
+    );
+    ctx.explore(
+        SubCfg::new(
+            "c10-other-entry-points",
+            "0-24 inputs through the entry points the other sub-checks do not use: a keyless entry-mode struct with Sum / MergeOptions<Sum> over Option / MergeOptions<Histogram<Duration>> with a unit attribute / exponential Histogram<u64> / Flatten of a nested aggregated struct / KeepLast fields, fed to Aggregate::insert, to a KeyedAggregator (NoKey: one aggregate per flush) and to a MutexSink both directly and through close_and_merge guards; a by-reference struct through insert / insert_and_send_to (raw entry forwarded) / AggregateSinkRef::merge_ref on a fresh or pre-populated Aggregate; #[aggregate(direct)] structs through merge, MergeOnDrop guards changed through DerefMut before the drop, and insert_direct. Oracle: reference sums, observation multisets, keep-last, aggregate and raw-entry counts. Non-trivial = >= 3 inputs with a guard that was changed before its drop",
+            if q { 3_000 } else { 80_000 },
+        )
+        .threads(ctx.tier.pick(4, 8))
+        .mandatory(&["keyless-behind-keyed-aggregator", "merge-options-some-and-none", "insert-and-send-to", "direct-mode"]),
+        other::arb_case,
+        other::check,
     );
 }
